@@ -42,7 +42,7 @@ and in a long-lived process):
       character that needs encoding) + the candidates (incl. the refused token itself), x all id types, for the first
       refused call of every refused token (thorough: of every row); a 35-token list incl. the refused token for the other
       rows. Demanded: the follower's outcome equals the outcome of the same call on an object that never refused anything
-      (reference: objects with only successful calls in their history, renewed after every raise), and satisfies
+      (reference: forked copies of a never-called object, each abandoned at its first raise), and satisfies
       (1)-(3),(5). A difference is re-executed as the 2-step history [refused ; follower] on a fresh object against the
       follower alone on a fresh object before it is reported.
   (7) language X created and used ; language Y created and used, in ONE process: for every ordered pair of
@@ -695,19 +695,44 @@ def needs_inner_encoding(spec: Spec, token: str, id_type: str) -> bool:
 
 def refusal_reference(lang: str, cfg: str) -> typing.Tuple[typing.Dict[typing.Tuple[str, str], Outcome], int]:
     """Outcome of every (follower, id_type) on objects that never refused anything before the call."""
+    # The language object of THIS process is never called. A forked copy of the process evaluates the calls in sequence until
+    # the first one that does not succeed; the rest continues in the next forked copy (of the still untouched object): every
+    # reference outcome comes from an object whose history consists of successful calls only.
     ref: typing.Dict[typing.Tuple[str, str], Outcome] = {}
-    lo = None
-    objects = 0
-    for token in hist_followers(True, REFUSAL_CANDIDATES[0]):
-        for id_type in ID_TYPES:
-            if lo is None:
-                lo = make_language(lang, cfg)
-                objects += 1
-            out = call(lo, token, id_type)
-            ref[(token, id_type)] = out
-            if out[0] != "ok":
-                lo = None  # this object has a refusal in its history now: not a reference any more
-    return ref, objects
+    lo = make_language(lang, cfg)
+    calls = [(t, i) for t in hist_followers(True, REFUSAL_CANDIDATES[0]) for i in ID_TYPES]
+    pos = copies = 0
+    while pos < len(calls):
+        rd, wr = os.pipe()
+        pid = os.fork()
+        if pid == 0:
+            code = 3
+            try:
+                os.close(rd)
+                outs = []
+                for t, i in calls[pos:]:
+                    outs.append(call(lo, t, i))
+                    if outs[-1][0] != "ok":
+                        break
+                with os.fdopen(wr, "w", encoding="ascii") as w:
+                    json.dump(outs, w)
+                code = 0
+            finally:
+                os._exit(code)
+        os.close(wr)
+        with os.fdopen(rd, "r", encoding="ascii") as r:
+            data = r.read()
+        _, status = os.waitpid(pid, 0)
+        if status != 0 or not data:
+            raise HarnessError(f"reference process of {lang}/{cfg} failed at call {pos} (status {status})")
+        outs = json.loads(data)
+        if not outs or any(o[0] != "ok" for o in outs[:-1]):
+            raise HarnessError(f"reference process of {lang}/{cfg}: malformed result at call {pos}")
+        for k, o in enumerate(outs):
+            ref[calls[pos + k]] = (o[0], o[1])
+        pos += len(outs)
+        copies += 1
+    return ref, copies
 
 
 def two_step(lang: str, cfg: str, refused: typing.Sequence[str], token: str, id_type: str) -> typing.Tuple[Outcome, Outcome, Outcome]:
@@ -735,7 +760,7 @@ def refusal_job(lang: str, cfg: str, thorough: bool, res: dict) -> None:
     bag: Bag = res["bag"]
     spec = Spec(lang, cfg)
     ref, ref_objects = refusal_reference(lang, cfg)
-    h = {"rows": 0, "deep_rows": 0, "followups": 0, "refused_calls": 0, "inner_encoding_followups": 0, "objects": ref_objects,
+    h = {"rows": 0, "deep_rows": 0, "followups": 0, "refused_calls": 0, "inner_encoding_followups": 0, "objects": 0, "reference_copies": ref_objects,
          "refusal_followers": 0, "reference_calls": len(ref), "differences": 0, "shapes": set()}  # fmt: skip
     res["hist"] = h
     # the reference outcomes are judged like any other call (this is the only place the HIST_CONFIGS meet oracle (1)-(3),(5))
@@ -822,6 +847,12 @@ def pair_histories(ctx: Ctx) -> typing.List[typing.Tuple[typing.Tuple[str, str],
         for y in pair_nodes(False):
             if (x in core and y in core) or ctx.in_slice(f"pair:{x[0]}/{x[1]}>{y[0]}/{y[1]}"):
                 out.append((x, y))
+    # every node that occurs needs an evaluation as the first language of a process (its reference)
+    firsts = {x for x, _ in out}
+    for node in pair_nodes(False):
+        if node not in firsts and any(node == y for _, y in out):
+            out.append((node, node))
+            firsts.add(node)
     return out
 
 
